@@ -161,6 +161,33 @@ def _records_table(R, table, flavour, tier, only, tindex=0):
                         R.outcome((n, len(table), ob, tril, sorted(gotp.items())[:6]))
                     except Exception as ex:
                         R.mismatch("valid-chunk-raises:" + type(ex).__name__, inner, f"{ex!s:.300}")
+                # -- the same chunk with chromosomes given as integer ids (decode_chroms=False; -1 = not listed), with and without
+                #    unlisted records in the chunk (dropping them copies the id arrays, a chunk without any works on the caller's columns)
+                for listed_only in (False, True):
+                    innerI = {"table": tname, "names": flavour, "opt": opt,
+                              "chunk": "all-valid:integer-chromosome-ids" + (":listed-only" if listed_only else "")}
+                    if sided or not (only is None or only == innerI):
+                        continue
+                    R.c["transitions"] += 1
+                    R.c["evaluations"] += 1
+                    R.c["nontrivial"] += 1
+                    R.classes["chunk:integer-chromosome-ids"] += 1
+                    okI = [k for k in okidx if not (listed_only and exp[k][0] == "dropped-unknown")]
+                    recs = [allrecs[k] for k in okI]
+                    fr = _frame(recs, tags=False)
+                    fr["chrom1"] = np.array([order.get(c, -1) for c in fr["chrom1"]], dtype=np.int64)
+                    fr["chrom2"] = np.array([order.get(c, -1) for c in fr["chrom2"]], dtype=np.int64)
+                    try:
+                        sanI = sanitize_records(bdf, schema="pairs", decode_chroms=False, is_one_based=bool(ob), tril_action=tril,
+                                                sort=False, validate=True)
+                        out = sanI(fr)
+                        gotI = {int(ix): (int(b1), int(b2)) for ix, b1, b2 in zip(out.index, out["bin1_id"], out["bin2_id"])}
+                        wantI = {pos: (exp[k][1], exp[k][2]) for pos, k in enumerate(okI) if exp[k][0] == "kept"}
+                        if gotI != wantI:
+                            bad = sorted(set(gotI.items()) ^ set(wantI.items()))[:6]
+                            R.mismatch("record-in-wrong-pixel:integer-chromosome-ids", innerI, f"differences (row, pixel)={bad}")
+                    except Exception as ex:
+                        R.mismatch("valid-chunk-raises:" + type(ex).__name__, innerI, f"{ex!s:.300}")
                 # -- every valid record alone (thorough, small tables)
                 if tier == "thorough" and n <= 4 and not sided:
                     for k in okidx:
